@@ -232,6 +232,27 @@ def _(S, z):
     return [t, n], lambda: pb.snippet(z, t, n)
 
 
+@op("snippet-duration", "signal", None, 4)
+def _(S, z):
+    # t given as a time Quantity (an argument object the call must leave alone): 1 <= t*sample_rate <= 2 samples, whole or not
+    k = S.int("tk", 2, 4)
+    tq = S.quantity(k / (2 * z.sample_rate.value), u.ms) if S.symbolic else (float(k) / (2 * z.sample_rate.value)) * u.ms
+    return [tq], lambda: pb.snippet(z, tq, 1)
+
+
+@op("concatenate-metas", "signal", None, 2)
+def _(S, z):
+    # pieces with different, non-empty meta dictionaries (the first one passed as the caller's own object)
+    y = pb.Signal.like(z, start_time=z.stop_time, meta={"other": [2]})
+    return [y], lambda: pb.concatenate([z, y])
+
+
+@op("concatenate-metas-raises", "signal", None, 2)
+def _(S, z):
+    y = pb.Signal.like(z, start_time=z.stop_time, sample_rate=z.sample_rate * 2, meta={"other": [2]})
+    return [y], lambda: pb.concatenate([z, y])
+
+
 @op("snippet-frac", "signal", None, 2)
 def _(S, z):
     t = S.real("t")
